@@ -118,6 +118,22 @@ class UnrollFamily(Family):
             if sorted(mrows) != sorted(irows):
                 res.fail('C06-schedule', 'program %r (top count %r): unrolled schedule differs from n back-to-back copies: model %r, implementation %r' % (
                     prog, top_rep, mrows, irows))
+            else:
+                # "for all duration assignments": the unrolled circuit is re-timed under two more configurations (each copy still
+                # follows whichever relation leaf ends latest *then*)
+                for other in ('H', 'D', 'G'):
+                    if other == self.cfgname:
+                        continue
+                    ocfg = world.cfg_by_name(other)
+                    with world.override(ocfg):
+                        world.clear_memo()
+                        osched = Sched(ocfg)
+                        m2, i2 = model_rows(model, osched), impl_rows(un.operations)
+                    if sorted(m2) != sorted(i2):
+                        res.fail('C06-schedule-reconfigured', 'program %r (top count %r) unrolled under %s, re-timed under %s: model %r, implementation %r' % (
+                            prog, top_rep, self.cfgname, other, m2, i2))
+                        break
+                world.clear_memo()
             # (g) a block of duration T whose last-ending operation is a relation leaf occupies n*T
             if rep_count(top_rep) == 1:
                 for i, e in enumerate(prog):
